@@ -41,12 +41,12 @@ InitAccept ==
 DeclAttrs == {<<FALSE, FALSE, FALSE>>, <<TRUE, FALSE, FALSE>>, <<TRUE, TRUE, FALSE>>, <<TRUE, FALSE, TRUE>>, <<FALSE, TRUE, FALSE>>, <<FALSE, FALSE, TRUE>>}
 Forms == {"var", "func", "type", "const", "varblock", "method", "blockvar"}
 InitCarry ==
-  /\ \E named \in B, form1 \in Forms, a1 \in DeclAttrs, mid \in B, pkgdoc \in B,
+  /\ \E named \in B, form1 \in Forms, a1 \in DeclAttrs, mid \in B, pkgdoc \in B, after \in B,
         build \in {"gobuild", "plusbuild", "both"}, imports \in {"none", "used", "mixed"} :
        \E post \in {<< >>} \cup {<<Decl("post", f, a[1], a[2], a[3])>> : f \in {"func", "type", "varblock"}, a \in DeclAttrs} :
          layout = Lay(<<Decl("pre", form1, a1[1], a1[2], a1[3])>>
                       \o (IF mid THEN <<Float("fl")>> ELSE << >>)
-                      \o <<ConvShape("c1", named, ~named, FALSE, 2, FALSE, FALSE, named, FALSE, FALSE, 1)>>
+                      \o <<ConvShape("c1", named, ~named, FALSE, 2, FALSE, FALSE, named, after, after, 1)>>
                       \o post, pkgdoc, build, imports, "none")
   /\ Rest
 
